@@ -2,7 +2,7 @@
    producing the same observations as harness/src/sp.rs (C04, C08). *)
 From Coq Require Import String List Bool ZArith NArith Arith QArith.
 From GV Require Import Base.Outcome Base.AMap Model.GState Model.Creation Model.Query Model.Dijkstra.
-From GV Require Import Spec.ShortestPathDef Spec.ShortestPathCheck Run.Obs.
+From GV Require Import Spec.ShortestPathDef Spec.ShortestPathCheck Spec.DijkstraWF Run.Obs.
 Import ListNotations.
 Open Scope Z_scope.
 
@@ -41,11 +41,21 @@ Definition info_row (level : Z) (key : list Z) (i : spinfo Z) : list Z :=
 
 Definition dq (i : spinfo Z) : Q := inject_Z (sp_distance i).
 
-Definition single_obs (level : Z) (m : list (Z * spinfo Z)) : obs :=
+(* with a target only the target's entry is fixed by the property (which other
+   nodes happen to be finalised before the target depends on the heap's tie
+   order), so only that entry is compared with the implementation *)
+Definition keep_target (target : option Z) (m : list (Z * spinfo Z)) : list (Z * spinfo Z) :=
+  match target with
+  | None => m
+  | Some t => filter (fun kv => Z.eqb (fst kv) t) m
+  end.
+
+Definition single_obs (level : Z) (target : option Z) (m : list (Z * spinfo Z)) : obs :=
+  let m := keep_target target m in
   (1040, map (fun kv => info_row level [fst kv] (snd kv)) m, map (fun kv => dq (snd kv)) m).
 
-Definition pairs_obs (level : Z) (m : list (Z * list (Z * spinfo Z))) : obs :=
-  let flat := flat_map (fun sm => map (fun kv => ([fst sm; fst kv], snd kv)) (snd sm)) m in
+Definition pairs_obs (level : Z) (target : option Z) (m : list (Z * list (Z * spinfo Z))) : obs :=
+  let flat := flat_map (fun sm => map (fun kv => ([fst sm; fst kv], snd kv)) (keep_target target (snd sm))) m in
   (1041, map (fun ki => info_row level (fst ki) (snd ki)) flat, map (fun ki => dq (snd ki)) flat).
 
 Definition ends_key (i : spinfo Z) : list Z :=
@@ -149,7 +159,7 @@ Definition run_call (g : zstate) (c : spcall) : list obs :=
       let r := single_source teqb g (c_weighted c) s (c_target c) (c_cutoff c) (c_fo c) (c_wp c) in
       code_obs r ::
       match r with
-      | Ok m => [single_obs (c_level c) m; flag_obs (check_sources g c [s])]
+      | Ok m => [single_obs (c_level c) (c_target c) m; flag_obs (check_sources g c [s])]
       | _ => []
       end
     | [] => []
@@ -158,14 +168,14 @@ Definition run_call (g : zstate) (c : spcall) : list obs :=
     let r := multi_source teqb THREADS g (c_weighted c) (c_sources c) (c_target c) (c_cutoff c) (c_fo c) (c_wp c) in
     code_obs r ::
     match r with
-    | Ok m => [pairs_obs (c_level c) m; flag_obs (check_sources g c (c_sources c))]
+    | Ok m => [pairs_obs (c_level c) (c_target c) m; flag_obs (check_sources g c (c_sources c))]
     | _ => []
     end
   | FAllPairs =>
     let r := all_pairs teqb THREADS g (c_weighted c) (c_target c) (c_cutoff c) (c_fo c) (c_wp c) in
     code_obs r ::
     match r with
-    | Ok m => [pairs_obs (c_level c) m; flag_obs (check_sources g c (get_all_node_names g))]
+    | Ok m => [pairs_obs (c_level c) (c_target c) m; flag_obs (check_sources g c (get_all_node_names g))]
     | _ => []
     end
   | FInvolving =>
@@ -188,6 +198,10 @@ Definition ops_of (c : spcase) : list obs :=
   | Ok g =>
     (2, map node_row (get_all_nodes g), []) ::
     (1003, map edge_row (get_all_edges g), []) ::
+    (* the hypotheses of the theorems of Properties/C04.v hold for this graph
+       (weighted reading, hop-count reading) *)
+    (46, [[if search_hypotheses_b g true then 1 else 0;
+           if search_hypotheses_b g false then 1 else 0]], []) ::
     flat_map (run_call g) (s_calls c)
   | _ => []
   end.
